@@ -13,15 +13,17 @@ ASSUME Thm_OnlyStated
 ASSUME Thm_EmptyIsAbsent
 ASSUME Thm_UnknownIff
 ASSUME Thm_Precedence
+ASSUME Thm_InconsistentUnknown
+ASSUME Thm_NonceHeadlessTouch
 ASSUME Thm_Option
 ASSUME Thm_AllReachable
 ASSUME Thm_Principals
 ASSUME PrintT(<<"UN", ToJson([keyids |-> Cardinality(KeyIDs), encodable |-> Cardinality(Encodable)])>>)
 
-TPq == -1..4
+TPq == (-1..4) \cup {1000001}     \* 1000001 stands for every value beyond 10^6 (the harness uses 2^40 + x)
 Uq  == 0..2
 Vq  == 0..2
-TPt == -2..5
+TPt == (-2..5) \cup {-1000001, 1000001}
 Ut  == -1..3
 Vt  == 0..3
 K05 == {"enc", "dec", "mut", "junk"}
